@@ -361,6 +361,10 @@ void verif::verif_case(Rng & rng, long idx, const std::string & tier) {
     if (rng.coin(3, 4) && S < 3) S = (size_t)rng.range(3, 6);      // mostly S >= 3
     size_t A = (size_t)rng.range(1, 3);
     size_t O = (size_t)rng.range(1, 5);
+    if (rng.coin(1, 25)) {                                         // a few large models: Eigen's vectorised kernels
+        S = (size_t)rng.range(9, thorough ? 24 : 16); A = (size_t)rng.range(1, 2); O = (size_t)rng.range(2, 3);
+        std::printf("#stat large_S 1\n");
+    }
     Models M(makeTables(rng, S, A, O, st));
     const bool exact = st != ST_UGLY;
     std::printf("#stat stream_%s 1\n#stat S_%zu 1\n#stat O_%zu 1\n", st == ST_DYADIC ? "dyadic" : st == ST_UGLY ? "ugly" : "tiny", S, O);
